@@ -110,6 +110,34 @@ fn sample_docs() -> Vec<(String, DocD)> {
     out
 }
 
+/// (seed, start, end) of the decimal digit runs in the seed files: at most 150 per seed, spread evenly, the first 30
+/// (header lines) always. Used by the text-number classes of C02 and C03.
+pub fn decimal_runs(seeds: &[Seed]) -> Vec<(usize, usize, usize)> {
+    let mut out = Vec::new();
+    for (si, s) in seeds.iter().enumerate() {
+        let mut runs = Vec::new();
+        let mut i = 0;
+        while i < s.bytes.len() {
+            if s.bytes[i].is_ascii_digit() {
+                let a = i;
+                while i < s.bytes.len() && s.bytes[i].is_ascii_digit() {
+                    i += 1;
+                }
+                runs.push((si, a, i));
+            } else {
+                i += 1;
+            }
+        }
+        let n = runs.len();
+        for (j, r) in runs.into_iter().enumerate() {
+            if j < 30 || n <= 150 || j % (n / 120 + 1) == 0 {
+                out.push(r);
+            }
+        }
+    }
+    out
+}
+
 /// diagnostic: which (document, format) pairs the writers refuse, and why
 pub fn corpus_refusals() -> Vec<String> {
     let mut out = Vec::new();
